@@ -368,7 +368,7 @@ func (c *Contract) target() string {
 // call sites.
 func (c *Contract) sweepOnly() bool {
 	for _, cl := range c.Clauses {
-		if cl.Kind != "errdrop" && cl.Kind != "schema-equality-only-by" && cl.Kind != "decoders-come-in-pairs" && cl.Kind != "collections" && cl.Kind != "maps-keyed-by-field" && cl.Kind != "envdep" && cl.Kind != "maprange" && cl.Kind != "props" && cl.Kind != "calls-ordered" && cl.Kind != "every-iteration-calls" && cl.Kind != "iteration-local" && cl.Kind != "flag" && cl.Kind != "wires" && cl.Kind != "arg-from" && cl.Kind != "guarded" && cl.Kind != "field-from" && cl.Kind != "success-path-calls" && cl.Kind != "after-loop" && cl.Kind != "always-calls" {
+		if cl.Kind != "errdrop" && cl.Kind != "fails-only-by" && cl.Kind != "schema-equality-only-by" && cl.Kind != "decoders-come-in-pairs" && cl.Kind != "collections" && cl.Kind != "maps-keyed-by-field" && cl.Kind != "envdep" && cl.Kind != "maprange" && cl.Kind != "props" && cl.Kind != "calls-ordered" && cl.Kind != "every-iteration-calls" && cl.Kind != "iteration-local" && cl.Kind != "flag" && cl.Kind != "wires" && cl.Kind != "arg-from" && cl.Kind != "guarded" && cl.Kind != "field-from" && cl.Kind != "success-path-calls" && cl.Kind != "after-loop" && cl.Kind != "always-calls" {
 			return false
 		}
 	}
@@ -459,7 +459,7 @@ func (s *Specs) contractFor(pkgPath, fn string) *Contract {
 }
 
 var clauseKinds = map[string]bool{"requires": true, "ensures": true, "assigns": true, "shape": true, "shape-thorough": true, "setup": true, "loop": true,
-	"assume": true, "option": true, "props": true, "lemma": true, "invariant": true, "trusted": true, "errdrop": true, "schema-equality-only-by": true, "decoders-come-in-pairs": true, "collections": true, "maps-keyed-by-field": true, "envdep": true, "maprange": true, "calls-ordered": true, "every-iteration-calls": true, "iteration-local": true, "flag": true, "wires": true, "arg-from": true, "guarded": true, "field-from": true, "success-path-calls": true, "after-loop": true, "always-calls": true}
+	"assume": true, "option": true, "props": true, "lemma": true, "invariant": true, "trusted": true, "errdrop": true, "fails-only-by": true, "schema-equality-only-by": true, "decoders-come-in-pairs": true, "collections": true, "maps-keyed-by-field": true, "envdep": true, "maprange": true, "calls-ordered": true, "every-iteration-calls": true, "iteration-local": true, "flag": true, "wires": true, "arg-from": true, "guarded": true, "field-from": true, "success-path-calls": true, "after-loop": true, "always-calls": true}
 
 var tagRe = regexp.MustCompile(`^\[([A-Za-z0-9_,\- ]+)\]\s*`)
 var labelRe = regexp.MustCompile(`^([a-zA-Z_][a-zA-Z0-9_\-/]*):\s+`)
